@@ -84,7 +84,7 @@ TrProbe == /\ Is("probe") /\ Ev.r = "ok"
            /\ UNCHANGED svars /\ SnapOK(boxes) /\ Mark
 (* closing and reopening the file store on the same path changes nothing (C10) *)
 TrReopen == /\ Is("reopen") /\ Ev.r = "ok"
-            /\ UNCHANGED svars /\ SnapOK(boxes) /\ Mark
+            /\ Reopen(Ev.cap) /\ SnapOK(boxes) /\ Mark
 
 TraceNext == \/ TrReset \/ TrAdd \/ TrSeen \/ TrRemove \/ TrPurge \/ TrScan
              \/ TrGet \/ TrLatest \/ TrList \/ TrVisit \/ TrReopen \/ TrProbe
